@@ -112,31 +112,36 @@ Record raw : Type := mkRaw {
   r_isstd : list Z;
   r_isgmt : list Z }.
 
+(* everything after the 4 magic bytes *)
+Definition parse_body (l0 : list Z) : res raw :=
+  let l1 := skipn 16 l0 in
+  do hr <- unpack_l 6 l1;
+  match fst hr with
+  | [gmtcnt; stdcnt; leapcnt; timecnt; typecnt; charcnt] =>
+    let l2 := snd hr in
+    if timecnt <? 0 then Err E_STRUCT else
+    do tr <- unpack_l (Z.to_nat timecnt) l2;
+    do ir <- unpack_b false (Z.to_nat timecnt) (snd tr);
+    do yr <- unpack_types (Z.to_nat typecnt) (snd ir);
+    let l3 := snd yr in
+    let abbr := if charcnt <? 0 then l3 else firstn (Z.to_nat charcnt) l3 in
+    let l4 := if charcnt <? 0 then [] else skipn (Z.to_nat charcnt) l3 in
+    if existsb (fun b => 128 <=? b) abbr then Err E_OTHER else
+    if leapcnt <? 0 then Err E_OTHER else
+    let l5 := skipn (Z.to_nat (leapcnt * 8)) l4 in
+    if stdcnt <? 0 then Err E_STRUCT else
+    do sr <- unpack_b true (Z.to_nat stdcnt) l5;
+    if gmtcnt <? 0 then Err E_STRUCT else
+    do gr <- unpack_b true (Z.to_nat gmtcnt) (snd sr);
+    Ok (mkRaw (fst tr) (fst ir) (fst yr) abbr leapcnt (fst sr) (fst gr))
+  | _ => Err E_FUEL
+  end.
+
+(* fileobj.read(4).decode() != "TZif" -> ValueError (a short or undecodable magic too) *)
 Definition parse_tzif (bytes : list Z) : res raw :=
   match bytes with
-  | 84 :: 90 :: 105 :: 102 :: l0 =>
-    let l1 := skipn 16 l0 in
-    do hr <- unpack_l 6 l1;
-    match fst hr with
-    | [gmtcnt; stdcnt; leapcnt; timecnt; typecnt; charcnt] =>
-      let l2 := snd hr in
-      if timecnt <? 0 then Err E_STRUCT else
-      do tr <- unpack_l (Z.to_nat timecnt) l2;
-      do ir <- unpack_b false (Z.to_nat timecnt) (snd tr);
-      do yr <- unpack_types (Z.to_nat typecnt) (snd ir);
-      let l3 := snd yr in
-      let abbr := if charcnt <? 0 then l3 else firstn (Z.to_nat charcnt) l3 in
-      let l4 := if charcnt <? 0 then [] else skipn (Z.to_nat charcnt) l3 in
-      if existsb (fun b => 128 <=? b) abbr then Err E_OTHER else
-      if leapcnt <? 0 then Err E_OTHER else
-      let l5 := skipn (Z.to_nat (leapcnt * 8)) l4 in
-      if stdcnt <? 0 then Err E_STRUCT else
-      do sr <- unpack_b true (Z.to_nat stdcnt) l5;
-      if gmtcnt <? 0 then Err E_STRUCT else
-      do gr <- unpack_b true (Z.to_nat gmtcnt) (snd sr);
-      Ok (mkRaw (fst tr) (fst ir) (fst yr) abbr leapcnt (fst sr) (fst gr))
-    | _ => Err E_FUEL
-    end
+  | c0 :: c1 :: c2 :: c3 :: l0 =>
+    if (c0 =? 84) && (c1 =? 90) && (c2 =? 105) && (c3 =? 102) then parse_body l0 else Err E_VALUE
   | _ => Err E_VALUE
   end.
 
@@ -380,13 +385,14 @@ Definition datetime_exists (d : tzdata) (w : Z) (fold : bool) : res bool :=
 (* tz.datetime_ambiguous(dt, tz) = tz.is_ambiguous(dt) *)
 Definition datetime_ambiguous (d : tzdata) (w : Z) : res bool := is_ambiguous d w None.
 
-(* tz.resolve_imaginary(dt): (wall, fold) of the result; dt +/- timedelta has fold 0 *)
+(* tz.resolve_imaginary(dt) (after fix 7f58098): the width of the gap is how far a trip through
+   UTC moves the wall time; (wall, fold) of the result; dt += timedelta gives fold 0 *)
 Definition resolve_imaginary (d : tzdata) (w : Z) (fold : bool) : res (Z * bool) :=
   do e <- datetime_exists d w fold;
   if e then Ok (w, fold) else
-  do curr <- dt_utcoffset d (w + 86400) false;
-  do old <- dt_utcoffset d (w - 86400) false;
-  Ok (w + (curr - old), false).
+  do u <- to_utc d w fold;
+  do wf <- fromutc d u;
+  Ok (w + Z.abs (w - fst wf), false).
 
 (* ------------------------------------------------------------------ fixed zones: tzutc, tzoffset *)
 Definition fixed_fromutc (off u : Z) : Z * bool := (u + off, false).
